@@ -1,0 +1,18 @@
+//go:build verif
+
+package checks
+
+// Contracts checked by /verif/engine (govc). Comment-only file: no code is compiled from it.
+
+//@ lemma severity_order [C05]
+//@   assert Information == 0 && Warning == 1 && Bug == 2 && Fatal == 3
+//@   assert Information < Warning && Warning < Bug && Bug < Fatal
+
+//@ func ParseSeverity [C05]
+//@   ensures s == "fatal"   ==> result0 == Fatal       && result1 == nil
+//@   ensures s == "bug"     ==> result0 == Bug         && result1 == nil
+//@   ensures s == "warning" ==> result0 == Warning     && result1 == nil
+//@   ensures s == "info"    ==> result0 == Information && result1 == nil
+//@   ensures !(s == "fatal" || s == "bug" || s == "warning" || s == "info") ==> result1 != nil
+//@   ensures result1 == nil ==> Information <= result0 && result0 <= Fatal
+//@   safe
